@@ -248,6 +248,9 @@ LETTERS = "abcdefghijklmnopqrstuvwxyzABCDEFGHIJKLMNOPQRSTUVWXYZ"
 PUNCT = ".,!?'-:;\"()"
 WIDE = "éßñçøЖλ日本語あ♪—…\U0001F600"
 SPECIAL_WORDS = ["&", "<", ">", "<3", "&&", "1<2"]
+# characters that Python calls white space or a line boundary (str.split, str.strip, str.splitlines, \s) but that are ordinary
+# characters of a SubRip text line (only CR / LF end a line); inside a word, never at its edges
+SPACE_LIKE_WORDS = ["a\u00a0b", "x\u3000y", "p\u2028q", "n\u0085m", "v\x0bw", "e\x1cf", "k\u2003l", "s\u2029t", "f\x0cg"]
 COLOR_NAMES = sorted(S.NAMED)
 H_EDGE = [0, 0, 0, 1, 9, 10, 11, 23, 24, 59, 60, 98, 99, 100, 101, 123, 255, 500, 998, 999]
 MS_EDGE = [0, 1, 9, 10, 11, 99, 100, 101, 280, 290, 333, 500, 570, 999, 998, 40, 7, 70, 700]
@@ -257,6 +260,8 @@ MAX_MS = ((999 * 60 + 59) * 60 + 59) * 1000 + 999
 def gen_word(r):
   k = r.random()
   n = r.choice([1, 1, 2, 3, 4, 5, 7])
+  if k < 0.04:
+    return r.choice(SPACE_LIKE_WORDS)
   if k < 0.70:
     return "".join(r.choice(LETTERS) for _ in range(n))
   if k < 0.80:
